@@ -311,7 +311,7 @@ func genSteps(t *rapid.T, key string, tree *Iface, n int) []BStep {
 			st.In = []json.RawMessage{}
 		}
 		switch r := rapid.IntRange(0, 11).Draw(t, "shape"); {
-		case r <= 3: // plain call, typed reply
+		case r <= 2: // plain call, typed reply
 			st.API = "call"
 			st.Reply = BReply{Kind: "reply", Out: g.fields(m.Out)}
 		case r <= 5 && len(es) > 0: // declared error
@@ -380,6 +380,10 @@ func genSteps(t *rapid.T, key string, tree *Iface, n int) []BStep {
 			st.Reply = BReply{Kind: "error", Error: e.Name}
 			st.Canned = []byte(fmt.Sprintf(rapid.SampledFrom([]string{`{"error":%s}`, `{"error":%s,"parameters":null}`, `{"parameters":null,"error":%s}`, `{"error":%s,"parameters":{}}`,
 				`{"error":%s,"parameters":{"unknown_member_zz":1}}`, `{"error":%s,"parameters":[]}`, `{"error":%s,"parameters":"text"}`, `{"error":%s,"continues":true}`}).Draw(t, "fshape"), q))
+		case r == 3 && rapid.IntRange(0, 3).Draw(t, "closed") == 0: // the transport is gone before the stub runs
+			st.API = rapid.SampledFrom([]string{"call", "call", "send", "upgrade"}).Draw(t, "closedapi")
+			st.Reply = BReply{Kind: "reply", Out: g.fields(m.Out)}
+			st.Closed = true
 		default: // plain send + one receive
 			st.API = "send"
 			st.Reply = BReply{Kind: "reply", Out: g.fields(m.Out)}
@@ -422,6 +426,21 @@ func judgeStep(st BStep, tree *Iface, o BStepObs) (string, int) {
 		}
 	}
 	pre := fmt.Sprintf("%s.%s (%s, impl %s, flags %#x): ", tree.Name, st.Method, st.API, st.Impl, st.Flags)
+	if st.Closed {
+		// nothing can be sent on a closed connection: whatever the stub returns, it is not a successful reply
+		if o.Problem != "" {
+			return pre + "on a closed connection: " + o.Problem, cmp
+		}
+		cmp++
+		if st.API == "call" {
+			if len(o.Recvs) != 1 || o.Recvs[0].ErrStr == "" {
+				return pre + fmt.Sprintf("the generated Call on a closed connection reported success (%d results, error %q): a call that never reached the wire is not a reply", len(o.Recvs), firstErr(o.Recvs)), cmp
+			}
+		} else if o.SendErr == "" {
+			return pre + fmt.Sprintf("the generated %s on a closed connection reported success", st.API), cmp
+		}
+		return "", cmp
+	}
 	if len(st.Canned) > 0 {
 		// a well-formed error frame from a foreign peer: the generated client must hand back an error of that name
 		// (typed, or the generic one where the parameters do not fit) - and must not crash
@@ -800,6 +819,9 @@ func TestC08Fixed(t *testing.T) {
 			mk("upgrade", 0, in, BReply{Kind: "error", Error: "Failed", Out: []json.RawMessage{json.RawMessage(`"busy"`), json.RawMessage("null"), json.RawMessage("[7]")}}, 0, "override"),
 			mk("upgrade", 0, in, BReply{Kind: "none"}, 0, "embed"),
 			mk("send", 0, in2, BReply{Kind: "error", Error: "Plain"}, 1, "override"),
+			{Pkg: "k0", Iface: tree.Name, Method: "All", API: "call", In: in, Impl: "override", Reply: BReply{Kind: "reply", Out: out}, Closed: true},
+			{Pkg: "k0", Iface: tree.Name, Method: "All", API: "send", In: in, Impl: "override", Reply: BReply{Kind: "reply", Out: out}, Closed: true},
+			{Pkg: "k0", Iface: tree.Name, Method: "All", API: "upgrade", In: in, Impl: "override", Reply: BReply{Kind: "reply", Out: out}, Closed: true},
 			{Pkg: "k0", Iface: tree.Name, Method: "All", API: "call", In: in, Impl: "override", Reply: BReply{Kind: "error", Error: "Failed"}, Canned: []byte(`{"error":"org.example.fixed.Failed"}`)},
 			{Pkg: "k0", Iface: tree.Name, Method: "All", API: "call", In: in, Impl: "override", Reply: BReply{Kind: "error", Error: "Plain"}, Canned: []byte(`{"error":"org.example.fixed.Plain","parameters":null}`)},
 			{Pkg: "k0", Iface: tree.Name, Method: "All", API: "call", In: in, Impl: "override", Reply: BReply{Kind: "error", Error: "Failed"}, Canned: []byte(`{"error":"org.example.fixed.Failed","parameters":{"why":17}}`)},
@@ -861,4 +883,11 @@ func idlNew(desc string) (*Iface, error) {
 		return nil, err
 	}
 	return FromParser(p)
+}
+
+func firstErr(r []BRecvObs) string {
+	if len(r) == 0 {
+		return ""
+	}
+	return r[0].ErrStr
 }
